@@ -75,10 +75,10 @@ func checkC01(c *Check, a *Anchors) {
 	c01DepsJoined(c, a)
 	c01DepErrorKept(c, a)
 	sharedWait(c, a)
-	c04RecordAfterSuccess(c, a) // a fingerprint recorded before the commands lets a second, concurrent reference of the dependency return "up to date" while the first is still running its commands
-	c06HashSeesInputs(c, a)     // a dependency call that is deduplicated against a call with other variables never runs
-	c06OnceKey(c, a)            // two distinct run: once dependencies must not share an execution key (one of them would never run)
-	namespaceAlwaysPrepended(c, a) // a dependency of an included task that keeps its un-namespaced name is bound to a task of another file: the listed dependency never runs
+	c04RecordAfterSuccess(c, a)               // a fingerprint recorded before the commands lets a second, concurrent reference of the dependency return "up to date" while the first is still running its commands
+	c06HashSeesInputs(c, a)                   // a dependency call that is deduplicated against a call with other variables never runs
+	c06OnceKey(c, a)                          // two distinct run: once dependencies must not share an execution key (one of them would never run)
+	namespaceAlwaysPrepended(c, a)            // a dependency of an included task that keeps its un-namespaced name is bound to a task of another file: the listed dependency never runs
 	freshElements(c, a, "dep-elements-fresh") // a rendered dependency written back into the shared definition freezes the first call's name and variables: a later call of the task waits for the wrong dependency and starts its commands although the one listed for it never ran
 }
 
